@@ -42,6 +42,50 @@ type filterSyms struct {
 	ipMaps *types.Var
 	index  *types.Var
 	mode   *types.Var
+	// maskOff: the table is indexed by prefix length minus one (0: 32 entries, entry i is the /(i+1) mask) or by the
+	// prefix length itself (1: 33 entries, entry 0 unused and zero, entry n is the /n mask)
+	maskOff int64
+}
+
+// affine: v as base + k (k constant).
+func affine(v ssa.Value) (string, int64) {
+	v = stripConv(v)
+	if b, ok := v.(*ssa.BinOp); ok && (b.Op == token.ADD || b.Op == token.SUB) {
+		if c, isC := sx.ConstInt(b.Y); isC {
+			base, k := affine(b.X)
+			if b.Op == token.SUB {
+				c = -c
+			}
+			return base, k + c
+		}
+		if c, isC := sx.ConstInt(b.X); isC && b.Op == token.ADD {
+			base, k := affine(b.Y)
+			return base, k + c
+		}
+	}
+	return sx.ValPath(v), 0
+}
+
+// lenOf: the prefix length n that mask index e stands for, as a value (nil if e is not of the expected form).
+func (s *filterSyms) lenOf(e ssa.Value) (ssa.Value, bool) {
+	if s.maskOff == 1 {
+		return e, true
+	}
+	return minusOne(e)
+}
+
+// maskIsLen: mask index e denotes the prefix length written as the expression n.
+func (s *filterSyms) maskIsLen(e, n ssa.Value) bool {
+	be, ke := affine(e)
+	bn, kn := affine(n)
+	return be == bn && ke+1-s.maskOff == kn
+}
+
+// maskIsMap: mask index e denotes the same prefix length as map index j (the maps are indexed by length minus one).
+func (s *filterSyms) maskIsMap(e, j ssa.Value) bool {
+	be, ke := affine(e)
+	bj, kj := affine(j)
+	return be == bj && ke-s.maskOff == kj
 }
 
 // maskIndex: if v is `X & ipv4Masks[e]` (either operand order) return X and e.
@@ -252,8 +296,13 @@ func runC11(p *core.Prog, r *core.Report) {
 					}
 					tableName = nm.Name
 					var bad []string
-					if at.Len() != 32 || len(cl.Elts) != 32 {
-						bad = append(bad, fmt.Sprintf("table has %d entries (literal %d), want 32", at.Len(), len(cl.Elts)))
+					off := 0
+					if at.Len() == 33 && len(cl.Elts) == 33 {
+						// indexed by the prefix length itself: entry 0 (the /0 mask, never a stored key's mask) is zero
+						off = 1
+						syms.maskOff = 1
+					} else if at.Len() != 32 || len(cl.Elts) != 32 {
+						bad = append(bad, fmt.Sprintf("table has %d entries (literal %d), want 32 (or 33 when indexed by the prefix length)", at.Len(), len(cl.Elts)))
 					}
 					for j, e := range cl.Elts {
 						if _, isKV := e.(*ast.KeyValueExpr); isKV {
@@ -266,12 +315,16 @@ func runC11(p *core.Prog, r *core.Report) {
 							continue
 						}
 						got, _ := constant.Uint64Val(tv.Value)
-						want := uint64(0xFFFFFFFF) << uint(31-j) & 0xFFFFFFFF
+						plen := j + 1 - off
+						want := uint64(0)
+						if plen > 0 && plen <= 32 {
+							want = uint64(0xFFFFFFFF) << uint(32-plen) & 0xFFFFFFFF
+						}
 						if got != want {
-							bad = append(bad, fmt.Sprintf("entry %d = %#x, the /%d netmask is %#x", j, got, j+1, want))
+							bad = append(bad, fmt.Sprintf("entry %d = %#x, the /%d netmask is %#x", j, got, plen, want))
 						}
 					}
-					r.Check(len(bad) == 0, "C11-R1", "netutil."+nm.Name+" table", p.Pos(cl.Pos()), "32 entries, entry i == ^uint32(0) << (31-i)", strings.Join(bad, "; "))
+					r.Check(len(bad) == 0, "C11-R1", "netutil."+nm.Name+" table", p.Pos(cl.Pos()), fmt.Sprintf("%d entries, entry i is the /(i+%d) netmask", 32+off, 1-off), strings.Join(bad, "; "))
 				}
 			}
 		}
@@ -354,8 +407,8 @@ func runC11(p *core.Prog, r *core.Report) {
 			key = syms.pairComp(key)
 			// form 1: key = X & mask[e], e == j
 			if _, e, ok := syms.maskKey(key); ok {
-				if sx.ValPath(stripConv(e)) == sx.ValPath(stripConv(j)) {
-					return true, "key masked with mask[" + sx.ValPath(e) + "], map selected by the same index"
+				if syms.maskIsMap(e, j) {
+					return true, "key masked with mask[" + sx.ValPath(e) + "], map selected by the index of the same prefix length"
 				}
 				return false, "key is masked with mask[" + sx.ValPath(e) + "] but the map is selected by [" + sx.ValPath(j) + "]"
 			}
@@ -429,11 +482,7 @@ func runC11(p *core.Prog, r *core.Report) {
 					r.OK("C11-R2", c, p.Pos(in.Pos()), "slot copied from another slot (already canonical)")
 				case "pair":
 					_, e, isKey := syms.maskKey(k0)
-					nn, isM1 := ssa.Value(nil), false
-					if isKey {
-						nn, isM1 = minusOne(stripConv(e))
-					}
-					if isKey && isM1 && sx.ValPath(stripConv(nn)) == sx.ValPath(stripConv(k1)) {
+					if isKey && syms.maskIsLen(e, k1) {
 						r.OK("C11-R2", c, p.Pos(in.Pos()), "stores (addr & mask[n-1], n)")
 						if fn == add {
 							addInserts = append(addInserts, in)
@@ -461,10 +510,8 @@ func runC11(p *core.Prog, r *core.Report) {
 						_, e, isKey = syms.maskKey(k0)
 					}
 					okPair := false
-					if isKey {
-						if nn, isM1 := minusOne(stripConv(e)); isM1 && sx.ValPath(stripConv(nn)) == sx.ValPath(stripConv(k1)) {
-							okPair = true
-						}
+					if isKey && syms.maskIsLen(e, k1) {
+						okPair = true
 					}
 					r.Check(okPair, "C11-R2", c, p.Pos(in.Pos()), "slot compared with the canonical pair (addr & mask[n-1], n)", "a list slot is compared as a whole with a value that is not (addr & mask[n-1], n)")
 					return
@@ -481,7 +528,7 @@ func runC11(p *core.Prog, r *core.Report) {
 						r.Fail("C11-R2", c, p.Pos(in.Pos()), "stored key compared with "+sx.ValPath(pr[1])+", which is not addr & mask[n-1]")
 						continue
 					}
-					nn, isM1 := minusOne(stripConv(e))
+					nn, isM1 := syms.lenOf(stripConv(e))
 					if !isM1 {
 						r.Fail("C11-R2", c, p.Pos(in.Pos()), "mask index "+sx.ValPath(e)+" is not of the form n-1")
 						continue
